@@ -33,7 +33,7 @@ def sync_handlers(run):
     import nodesim as NS
     from vsim import Sim
     from diameter.message.avp.grouped import ExperimentalResult
-    for shape in ("result-code", "experimental-result only", "error bit", "no result at all"):
+    for shape in ("result-code", "experimental-result only", "error bit", "no result at all", "answer, then the handler raises"):
         sim = Sim(seed=1, t0=NS.T0)
         try:
             sim.script_random([77, 12345])
@@ -43,7 +43,7 @@ def sync_handlers(run):
             class App(sim.app_mod.Application):
                 def handle_request(self, message):
                     a = self.generate_answer(message)
-                    if shape == "result-code":
+                    if shape in ("result-code", "answer, then the handler raises"):
                         a.result_code = 2001
                     elif shape == "experimental-result only":
                         a.result_code = None
@@ -58,6 +58,8 @@ def sync_handlers(run):
                     except Exception as e:   # noqa
                         failures.append(f"{type(e).__name__}: {e}")
                         raise
+                    if shape == "answer, then the handler raises":
+                        raise RuntimeError("handler failed after answering")
             app = App(4, is_auth_application=True)
             node.add_application(app, [node.add_peer("aaa://cli0.example.net", "example.net")])
             node.start()
@@ -75,7 +77,7 @@ def sync_handlers(run):
             got = [(m.header.hop_by_hop_identifier, getattr(m, "result_code", None)) for m in r.take_messages() if not m.header.is_request]
             run.count(1, [("sync-handler", shape)])
             per = {h: [rc for hh, rc in got if hh == h] for h in (0x50, 0x51, 0x52)}
-            want_rc = {"result-code": 2001, "error bit": 3004}.get(shape)
+            want_rc = {"result-code": 2001, "error bit": 3004, "answer, then the handler raises": 2001}.get(shape)
             if any(v != [want_rc] for v in per.values()) or failures or sim.thread_deaths:
                 run.violation("exactly-one-answer", {"scenario": "handler answers inside handle_request", "answer_shape": shape},
                               {"answers_per_request": {hex(h): v for h, v in per.items()}, "send_answer_failures": failures[:2],
